@@ -57,6 +57,8 @@ def check(ctx):
     ctx.attempt(common.total_lookups, _parser_funcs(ctx))
     ctx.attempt(common.optional_number_ordering, _parser_funcs(ctx))
     ctx.attempt(common.empty_reductions, _parser_funcs(ctx))
+    ctx.attempt(common.recursion_makes_progress, _parser_funcs(ctx))
+    ctx.attempt(common.float_of_matched_text, _parser_funcs(ctx))
     from .c05 import every_match_registers
     ctx.attempt(every_match_registers)
     from .c13 import decompiled_text_is_typed
